@@ -208,7 +208,9 @@ void h_after_fork_child(void)
 	struct call_rcu_data *nd; struct cds_wfcq_node *p; unsigned long k, cnt = 0, seen[2] = { 0, 0 }, expect = 0; struct call_rcu_data **pc = 0;
 	mk_helpers(URCU_CALL_RCU_PAUSE | URCU_CALL_RCU_PAUSED); G_mode = 4;
 	VIN(unsigned long, in_percpu);
-	default_call_rcu_data = G_n ? H[0] : 0;			/* H[0] is the inherited default helper, H[1] e.g. a per-thread one */
+	/* H[0] is the inherited default helper, H[1] e.g. a per-thread one - or the process only ever used per-thread / per-CPU
+	 * helpers and never created the default one */
+	default_call_rcu_data = (G_n && !(in_percpu & 2)) ? H[0] : 0;
 	if (in_percpu & 1) { pc = malloc(2 * sizeof(*pc)); VERIF_REQUIRE(pc != 0); pc[0] = H[1]; pc[1] = 0; }
 	per_cpu_call_rcu_data = pc; cpus_array_len = (in_percpu & 1) ? 2 : 0;
 	URCU_TLS(thread_call_rcu_data) = G_n == 2 ? H[1] : 0;
@@ -245,5 +247,5 @@ void h_after_fork_child(void)
 		VERIF_ASSERT(G_free_calls == G_n + 1, "call_rcu_after_fork_child: the per-CPU table and each inherited helper freed exactly once");
 		VERIF_ASSERT(G_free_ptr[0] == (void *) pc && (G_free_ptr[1] == (void *) H[0] || G_free_ptr[1] == (void *) H[1]) && (G_n < 2 || (G_free_ptr[2] != G_free_ptr[1] && (G_free_ptr[2] == (void *) H[0] || G_free_ptr[2] == (void *) H[1]))), "call_rcu_after_fork_child: frees are the table and the inherited helpers, no double free");
 	}
-	VERIF_COVER(G_n == 2 && (in_q & 3) == 3 && (in_percpu & 1)); VERIF_COVER(G_n == 0); VERIF_COVER(G_n == 1 && (in_q & 1) == 0);
+	VERIF_COVER(G_n == 2 && (in_q & 3) == 3 && (in_percpu & 1)); VERIF_COVER(G_n == 0); VERIF_COVER(G_n == 1 && (in_q & 1) == 0); VERIF_COVER(G_n == 1 && (in_percpu & 2) && (in_q & 1));
 }
